@@ -65,6 +65,15 @@ def replay_state(args):
                     check_extent(t, xmin[k], xmax[k], op)
             except Exception as ex:
                 bad.append(("C06.no-error", dict(op=op, exc=type(ex).__name__, cls="interior", **where0), None, repr(ex)[:200], None))
+        # a single target passed as a 1-D vector: 1-D answers equal to the batch row
+        try:
+            x0, x1 = est.range_of_solutions(B[0].copy())
+            if np.ndim(x0) != 1 or np.ndim(x1) != 1:
+                bad.append(("C06.extent", dict(op="range_of_solutions(1-D)", kind="shape", **where0), 1, [int(np.ndim(x0)), int(np.ndim(x1))], interior[0]))
+            else:
+                check_extent(interior[0], x0, x1, "range_of_solutions(1-D)")
+        except Exception as ex:
+            bad.append(("C06.no-error", dict(op="range_of_solutions(1-D)", exc=type(ex).__name__, cls="interior", **where0), None, repr(ex)[:200], None))
         # the same targets with captures expressed in other units (adaptation scaled by c, targets by c):
         # the solution polytope, hence every extent, is unchanged
         Kmat = np.asarray(s["Kn"], float) / s["DK"]
